@@ -573,19 +573,20 @@ size_t varintFloatEncodeAuto(uint8_t *output, const double *values,
                              const double max_relative_error,
                              const varintFloatEncodingMode mode,
                              varintFloatPrecision *selected_precision) {
-    /* Select precision based on maximum allowable relative error
-     * Thresholds based on mantissa bit counts with safety margins:
-     * FULL:   52-bit → 2^-52 ≈ 2e-16 (lossless)
-     * HIGH:   23-bit → 2^-23 ≈ 1.2e-7 (use for < 5e-4)
-     * MEDIUM: 10-bit → 2^-10 ≈ 9.8e-4 (use for < 3e-2)
-     * LOW:     4-bit → 2^-4  ≈ 6.3e-2 (use for >= 3e-2) */
+    /* Select the coarsest precision whose published bound
+     * (varintFloatPrecisionMaxRelativeError(): 2^-mantissaBits) does not
+     * exceed the error the caller allows:
+     * FULL:   lossless
+     * HIGH:   23-bit -> 2^-23 ~= 1.2e-7
+     * MEDIUM: 10-bit -> 2^-10 ~= 9.8e-4
+     * LOW:     4-bit -> 2^-4   = 6.25e-2 */
     varintFloatPrecision precision = VARINT_FLOAT_PRECISION_LOW;
 
-    if (max_relative_error < 1e-10) {
+    if (max_relative_error < 1.1920928955078125e-07) { /* < 2^-23 */
         precision = VARINT_FLOAT_PRECISION_FULL;
-    } else if (max_relative_error < 5e-4) { /* 0.05% threshold */
+    } else if (max_relative_error < 9.765625e-04) { /* < 2^-10 */
         precision = VARINT_FLOAT_PRECISION_HIGH;
-    } else if (max_relative_error < 0.03) { /* 3% threshold */
+    } else if (max_relative_error < 0.0625) { /* < 2^-4 */
         precision = VARINT_FLOAT_PRECISION_MEDIUM;
     } else {
         precision = VARINT_FLOAT_PRECISION_LOW;
